@@ -291,6 +291,18 @@ class TypedNode(Node):
             if data_id is not None and data_id != source_node._data_id:
                 raise UniqueConstraintError(f"data_id conflict: {source_node}")
 
+        if before is True:
+            before = 0  # prepend
+        elif before is False:
+            before = None  # append
+        # Validate `before` first: the constructor registers the new node
+        if isinstance(before, Node) and before._parent is not self:
+            raise ValueError(
+                f"`before=node` ({before._parent}) "
+                f"must be a child of target node ({self})"
+            )
+
+        if source_node is not None:
             # If creating an inherited node, use the parent class as constructor
             child_class = child.__class__
 
@@ -304,25 +316,14 @@ class TypedNode(Node):
         else:
             node = factory(kind, child, parent=self, data_id=data_id, node_id=node_id)
 
-        if before is True:
-            before = 0  # prepend
-        elif before is False:
-            before = None  # append
-
         children = self._children
         if children is None:
-            assert before in (None, True, int, False)
             self._children = [node]
         elif isinstance(before, int):
             children.insert(before, node)
-        elif before:
-            if before._parent is not self:
-                raise ValueError(
-                    f"`before=node` ({before._parent}) "
-                    f"must be a child of target node ({self})"
-                )
-            idx = children.index(before)  # raises ValueError
-            children.insert(idx, node)
+        elif before is not None:
+            # NOTE: `list.index()` checks for equality ('=='), not identity!
+            children.insert(Node.get_index(before), node)
         else:
             children.append(node)
 
